@@ -90,11 +90,11 @@ Example line_ok_other_commands : line_ok "go depth 5" /\ line_ok "move e2e4" /\ 
 Proof. repeat split; unfold line_ok; cbv zeta; intros H; vm_compute in H; discriminate H. Qed.
 
 (* every command keeps the current position inside the invariant *)
-Theorem C03_main_loop_keeps_the_position_legal : forall extra u line input,
+Theorem C03_main_loop_keeps_the_position_legal : forall extra dl u line input,
   legal_inv (u_game u) -> line_ok line ->
-  let '(u', _, _, _, _) := uci_step extra u line input in legal_inv (u_game u').
+  let '(u', _, _, _, _) := uci_step extra dl u line input in legal_inv (u_game u').
 Proof.
-  intros extra u line input LI OK. unfold line_ok in OK. cbv zeta in OK.
+  intros extra dl u line input LI OK. unfold line_ok in OK. cbv zeta in OK.
   destruct (String.eqb_spec (lower_str (first_token (trim line))) "position") as [EP|NP].
   - specialize (OK EP). unfold uci_step. cbv zeta.
     destruct (String.eqb (trim line) ""); [exact LI|]. rewrite EP. cbn [String.eqb Ascii.eqb Bool.eqb orb].
@@ -108,7 +108,7 @@ Proof.
       destruct (play_moves (u_game u) (u_rep u) (rest_tokens (trim line))) as [[g rep]| |] eqn:PM; try exact LI.
       cbn [u_game]. exact (play_moves_inv _ _ _ _ _ LI PM).
     + (* every other command leaves the position alone *)
-      assert (K : let '(u', _, _, _, _) := uci_step extra u line input in u_game u' = u_game u).
+      assert (K : let '(u', _, _, _, _) := uci_step extra dl u line input in u_game u' = u_game u).
       { unfold uci_step. cbv zeta.
         destruct (String.eqb (trim line) ""); [reflexivity|].
         set (cmd := lower_str (first_token (trim line))) in *.
@@ -118,9 +118,9 @@ Proof.
         destruct (String.eqb cmd "d"); [reflexivity|]. destruct (String.eqb cmd "eval"); [reflexivity|].
         destruct (String.eqb_spec cmd "position") as [E|_]; [contradiction|].
         destruct (String.eqb cmd "go").
-        - destruct (go_tokens _ _ _ _ _); try reflexivity. destruct (negb _); [reflexivity|].
-          destruct (session_search _ _ _ _ _); [|reflexivity].
-          destruct (if (_ =? 0)%Z then _ else _) as [[nready stopper] rest]. reflexivity.
+        - destruct (go_tokens _ _ _ _ _); try reflexivity.
+          destruct (session_search _ _ _ _ _ _); [|reflexivity].
+          destruct (poll_schedule _ _ _ _) as [[nready stopper] rest]. reflexivity.
         - destruct (String.eqb cmd "stop"); [reflexivity|].
           destruct (String.eqb_spec cmd "move") as [E|_]; [contradiction|].
           destruct (String.eqb cmd "perft").
@@ -130,20 +130,20 @@ Proof.
           { destruct (rest_tokens (trim line)) as [|t r]; [reflexivity|].
             destruct (parse_uint 256 t) as [d|]; [|reflexivity]. destruct (d =? 255)%N; reflexivity. }
           destruct (_ || _)%bool; reflexivity. }
-      destruct (uci_step extra u line input) as [[[[u' o] rq] i'] st]. rewrite K. exact LI.
+      destruct (uci_step extra dl u line input) as [[[[u' o] rq] i'] st]. rewrite K. exact LI.
 Qed.
 
 (* every state a session can be in: the fresh engine, and whatever admissible lines lead to from there (whatever else is pending as input) *)
 Inductive session_state (extra : N) : ustate -> Prop :=
 | ss_init : session_state extra init_ustate
-| ss_step : forall u line input u' outs rq input' st,
-    session_state extra u -> line_ok line -> uci_step extra u line input = (u', outs, rq, input', st) -> session_state extra u'.
+| ss_step : forall dl u line input u' outs rq input' st,
+    session_state extra u -> line_ok line -> uci_step extra dl u line input = (u', outs, rq, input', st) -> session_state extra u'.
 
 Theorem C03_every_session_state_holds_a_legal_position : forall extra u, session_state extra u -> legal_inv (u_game u).
 Proof.
-  intros extra u H. induction H as [|u line input u' outs rq input' st _ IH OK E].
+  intros extra u H. induction H as [|dl u line input u' outs rq input' st _ IH OK E].
   - unfold init_ustate. rewrite start_game_is_startpos. cbn [u_game]. exact start_game_inv.
-  - pose proof (C03_main_loop_keeps_the_position_legal extra u line input IH OK) as K. rewrite E in K. exact K.
+  - pose proof (C03_main_loop_keeps_the_position_legal extra dl u line input IH OK) as K. rewrite E in K. exact K.
 Qed.
 
 (* whatever holds of the lines of every search of the current position holds of the search lines the main loop prints in answer to any command *)
@@ -152,9 +152,9 @@ Lemma Forall_lift_text Q l : Forall (lift_out Q) (map OText l).
 Proof. induction l; constructor; [exact I|assumption]. Qed.
 Lemma Forall_lift_repeat Q s n : Forall (lift_out Q) (repeat (OText s) n).
 Proof. induction n; constructor; [exact I|assumption]. Qed.
-Lemma main_loop_search_lines (Q : out move -> Prop) extra u line input :
+Lemma main_loop_search_lines (Q : out move -> Prop) extra dl u line input :
   (forall p s b d t rt ri, match chess_search p s b (u_game u) d t rt ri with SDone outs _ _ => Forall Q outs | SFuel => True end) ->
-  let '(_, outs, _, _, _) := uci_step extra u line input in Forall (lift_out Q) outs.
+  let '(_, outs, _, _, _) := uci_step extra dl u line input in Forall (lift_out Q) outs.
 Proof.
   intros HQ. unfold uci_step. cbv zeta.
   destruct (String.eqb (trim line) ""); [constructor|].
@@ -167,11 +167,10 @@ Proof.
   { destruct (negb _); [constructor|]. destruct (parse_position _) as [[g rep]| |]; constructor. }
   destruct (String.eqb cmd "go").
   - destruct (go_tokens _ _ _ _ _) as [a msgs|msgs| |]; [|apply Forall_lift_text|constructor|repeat constructor].
-    destruct (negb _); [apply Forall_app; split; [apply Forall_lift_text|repeat constructor]|].
     unfold session_search.
     match goal with |- context [chess_search ?p ?s ?b ?g ?d ?t ?rt ?ri] =>
       pose proof (HQ p s b d t rt ri) as B; destruct (chess_search p s b g d t rt ri) as [so e sc|] end; [|constructor].
-    destruct (if (_ =? 0)%Z then _ else _) as [[nready stopper] rest].
+    destruct (poll_schedule _ _ _ _) as [[nready stopper] rest].
     apply Forall_app; split; [apply Forall_lift_text|]. apply Forall_app; split; [apply Forall_lift_repeat|].
     clear -B. induction so as [|o r IH]; [constructor|]. inversion B as [|? ? B1 B2]; subst. constructor; [exact B1|apply IH; exact B2].
   - destruct (String.eqb cmd "stop"); [repeat constructor|].
@@ -189,21 +188,21 @@ Qed.
 
 (* whatever line the main loop reads in a state holding a legal position with at least one legal move, every best move it prints in answer
    is a legal move of the rules in that position *)
-Theorem C03_main_loop_bestmoves_are_legal : forall extra u line input,
+Theorem C03_main_loop_bestmoves_are_legal : forall extra dl u line input,
   legal_inv (u_game u) -> spec_has_legal (u_game u) = true ->
-  let '(_, outs, _, _, _) := uci_step extra u line input in
+  let '(_, outs, _, _, _) := uci_step extra dl u line input in
   Forall (lift_out (fun o => match o with OBest m => mon_bestmove (u_game u) m = true | _ => True end)) outs.
 Proof.
-  intros extra u line input LI HL. apply main_loop_search_lines. intros p s b d t rt ri.
+  intros extra dl u line input LI HL. apply main_loop_search_lines. intros p s b d t rt ri.
   exact (C03_bestmove_legal_under_the_rules p s b (u_game u) d t rt ri LI HL).
 Qed.
 (* ... and every principal variation it prints is a legal line of the rules from that position (C12 at the level of the main loop) *)
-Theorem C12_main_loop_pvs_are_legal_lines : forall extra u line input,
+Theorem C12_main_loop_pvs_are_legal_lines : forall extra dl u line input,
   legal_inv (u_game u) ->
-  let '(_, outs, _, _, _) := uci_step extra u line input in
+  let '(_, outs, _, _, _) := uci_step extra dl u line input in
   Forall (lift_out (fun o => match o with OInfo _ _ _ _ pv => mon_pv (u_game u) pv = true | _ => True end)) outs.
 Proof.
-  intros extra u line input LI. apply main_loop_search_lines. intros p s b d t rt ri.
+  intros extra dl u line input LI. apply main_loop_search_lines. intros p s b d t rt ri.
   exact (C12_pv_legal_full p s b (u_game u) d t rt ri LI).
 Qed.
 
